@@ -390,6 +390,12 @@ def _make_simproxy_class():
         def _close(self):
             if not self.closed:
                 self.closed = True
+                if self.queue:
+                    dropped = list(self.queue)
+                    for obs in self.sim.observers:
+                        f = getattr(obs, 'on_proxy_drop', None)
+                        if f:
+                            f(self.sim, self.inst, self, dropped)
                 self.queue.clear()
                 try:
                     self.supvisors.rpc_handler.proxy_server.on_proxy_closing(self.status.identifier)
@@ -876,6 +882,21 @@ class Sim:
         from supervisor.states import SupervisorStates
         mood = inst.sd.options.mood
         inst.exit_mood = mood
+        # rpc_handler.stop() joined every proxy thread: a message already dequeued (in flight) is delivered before the
+        # thread ends, the messages still queued are lost
+        for proxy in list(inst.proxies_seen):
+            if proxy.busy and proxy.queue and not proxy.dead:
+                event = proxy.queue.popleft()
+                try:
+                    proxy.process_event(event)
+                except Exception:  # noqa
+                    pass
+            if proxy.queue:
+                dropped = list(proxy.queue)
+                for obs in self.observers:
+                    f = getattr(obs, 'on_proxy_drop', None)
+                    if f:
+                        f(self, inst, proxy, dropped)
         self._bury(inst, 'exit')
         self.note('exit', inst.nick, mood)
         self.stats['exit_restart' if mood == SupervisorStates.RESTARTING else 'exit_shutdown'] += 1
